@@ -314,7 +314,22 @@ async def _run(sc: dict, holder: dict | None = None) -> dict:
             def _lost() -> None:
                 connected["up"] = False
                 R.rec(e="ConnLost")
-                proto.connection_lost(None)
+                # why the connection went: nothing said / the serial layer's own exception (what PortTransport passes on
+                # when the port dies) / the library's transport error - the callers' errors must stay in the family
+                why = e.get("why")
+                if why == "serial":
+                    from serial import SerialException
+                    proto.connection_lost(SerialException("device reports readiness to read but returned no data"))
+                elif why == "transport":
+                    from ramses_tx import exceptions as _exc
+                    proto.connection_lost(_exc.TransportError("the port was closed"))
+                else:
+                    proto.connection_lost(None)
+                # the cause is handed to the protocol's owner through wait_for_connection_lost(); the harness is the owner
+                # and collects it (an un-awaited notification future is not the send machinery's doing, J29)
+                fut = getattr(proto, "_wait_connection_lost", None)
+                if fut is not None and fut.done() and not fut.cancelled():
+                    fut.exception()
 
             loop.call_soon(_lost)  # as the real transports do
         elif ev == "conn_made":
